@@ -210,6 +210,24 @@ def r3_bounded_copy(ctx):
     okz = bool(gz) and t.bb not in cfg.reachable(cfg.entry, cut_edges=[e.key() for g in gz for e in g])
     (out.append(holds("C17.R3", "copy_path_into_buffer:guards", t.where(), "copy only for non-NULL buffer and bufsize > 0")) if okn and okz else
      out.append(violated("C17.R3", "copy_path_into_buffer:guards", t.where(), "copy not guarded by non-NULL (%s) and non-zero size (%s)" % (okn, okz))))
+    # nothing else touches the caller's buffer: the pointer goes to is_null() and, as destination, to the one copy;
+    # no other call receives it (add/offset/write..) and nothing is stored through it
+    extra = []
+    for (c, ai) in _param_flows(ctx, cb, 2):
+        if c.callee == "std::ptr::mut_ptr::<impl *mut T>::is_null" and ai == 0:
+            continue
+        if c is t and ai == 1:
+            continue
+        extra.append("%s(arg %d)" % (c.callee, ai))
+    for blk in cb.blocks:
+        if blk.cleanup:
+            continue
+        for i, s_ in enumerate(blk.stmts):
+            if s_.kind == "assign" and "*" in s_.lhs.proj and "*mut" in cb.local_tys[s_.lhs.local]:
+                extra.append("store through %s at line %d" % (cb.local_tys[s_.lhs.local], s_.line))
+    (out.append(holds("C17.R3", "copy_path_into_buffer:only-write", t.where(), "the buffer is written by the bounded copy only")) if not extra else
+     out.append(violated("C17.R3", "copy_path_into_buffer:only-write", t.where(),
+                         "the caller's buffer is touched outside the bounded copy (%s): more than min(length, size) bytes are written" % ", ".join(extra))))
     # return = full length
     ro = T.return_origins(cb, OKP)
     okr = bool(ro) and all(o.kind == "call" and o.term.callee == "core::slice::<impl [T]>::len" for o in ro)
@@ -320,9 +338,23 @@ def r4_no_rust_enums(ctx):
     return out
 
 
+def r5_lent_descriptors(ctx):
+    """'never close or modify descriptors they were lent': no C API body turns a borrowed descriptor number into an
+    owner (from_raw_fd) or releases ownership by hand (into_raw_fd) outside the one audited return path -- the
+    ownership escape hatches of C11.R1, restricted to src/capi."""
+    from .c11 import r1_escape_hatches
+    out = []
+    for i in r1_escape_hatches(ctx):
+        if i.key.startswith("capi::") or "capi::" in i.key:
+            i.rule = "C17.R5"
+            out.append(i)
+    return out
+
+
 RULES = [
     ("C17.R1", r1_fd_params, 16, True),
     ("C17.R2", r2_path_params, 19, True),
     ("C17.R3", r3_bounded_copy, 5, True),
+    ("C17.R5", r5_lent_descriptors, 1, True),
     ("C17.R4", r4_no_rust_enums, 40, True),
 ]
